@@ -694,7 +694,7 @@ void XMLFormatter::specialFormat(const  XMLCh* const    toFormat
 
                 // Move up the source pointer and break out if needed
                 srcPtr++;
-                if (fXCoder->canTranscodeTo(*srcPtr))
+                if (srcPtr >= endPtr || fXCoder->canTranscodeTo(*srcPtr))
                     break;
             }
         }
